@@ -53,7 +53,10 @@ def pcdataSer (cdataMode : Bool) (s : Str) : Str :=
     separate tokens when CDATA escaping is on, so a CR … LF pair split over them arrives as TWO line feeds, while
     entity escaping writes them as one run which arrives as one. Never produced by pywbem (one `_pcdata_nodes`
     call per element). -/
-def endsCR (s : Str) : Bool := s.getLast? == some '\r'
+def endsCR : Str → Bool
+  | [] => false
+  | [c] => c == '\r'
+  | _ :: d :: t => endsCR (d :: t)
 
 mutual
 def cdSafe : Xml → Bool
